@@ -151,8 +151,8 @@ P("C08", module="AJ.Props.C08All", extra=[("AJ.Props.DocGen", ["C08"]), ("AJ.Pro
   suites=lambda tier: [S.MpSerSuite(cfg=DEF), S.SerBufSweep(cfg=DEF, fmt="mp", n=40 if tier == "quick" else 1500), S.MpSerSuite(cfg=G["len1"], n=300 if tier == "quick" else 20000)] +
   ([S.MpSerSuite(cfg=G["len4"], n=2000)] if tier == "thorough" else []))
 
-P("C09", module="AJ.Props.C09All", extra=[("AJ.Props.DocGen", ["C09"]), ("AJ.Props.C09Gen", ["C09"]), ("AJ.Props.SlotCor2", ["C09"]), ("AJ.Props.C09", ["C09"]), ("AJ.Props.C09Prefix", ["C09"]), ("AJ.Props.C09Doc", ["C09"])],
-  level_text="C09.msgpack_read_back_is_source: on the MessagePack bytes of 44 documents the deserializer model leaves the document the compiled library leaves (translator tie). C09.first_byte_dispatch_is_source_zero / _count: on each of the 256 first bytes followed by two fixed tails the model's code, consumption and document are those obtained on every run by calling the compiled deserializeMsgPack (translator tie, kernel evaluation of 512 runs). Theorems: every serialized document is accepted and decoded to the value it encodes with exact consumption (any trailing bytes); "
+P("C09", module="AJ.Props.C09All", extra=[("AJ.Props.C09Value", ["C09"]), ("AJ.Props.DocGen", ["C09"]), ("AJ.Props.C09Gen", ["C09"]), ("AJ.Props.SlotCor2", ["C09"]), ("AJ.Props.C09", ["C09"]), ("AJ.Props.C09Prefix", ["C09"]), ("AJ.Props.C09Doc", ["C09"])],
+  level_text="C09.enc_value / enc_value_filtered / enc_run_value: for EVERY legal encoding (the relation MD.EncVal mirrors the syntactic predicate MD.Enc and carries the value: any width at every place, bin/ext/fixext, nested) the deserializer model returns Ok, exactly that value (its projection under a filter) and exact consumption, whatever follows; enc_decodeTop: the independent decoder written from the specification decodes the same bytes to an object that the value denotes; width_irrelevant: two encodings that the specification decodes to the same object give documents that compare equal (raw-free, NaN-free, no repeated keys; raw_width_matters: for bin/ext the stored bytes are the original ones, so the width IS observable there - kernel-checked witness). C09.msgpack_read_back_is_source: on the MessagePack bytes of 44 documents the deserializer model leaves the document the compiled library leaves (translator tie). C09.first_byte_dispatch_is_source_zero / _count: on each of the 256 first bytes followed by two fixed tails the model's code, consumption and document are those obtained on every run by calling the compiled deserializeMsgPack (translator tie, kernel evaluation of 512 runs). Theorems: every serialized document is accepted and decoded to the value it encodes with exact consumption (any trailing bytes); "
   "C09.enc_accepts: every encoding of the syntactic predicate MD.Enc (any legal width at every place: fix/8/16/32 lengths and counts, bin, ext, fixext, nested containers, within the limits) is "
   "accepted, for every filter; prefix_classification / enc_prefix_classification / run_prefix_by_consumed: every proper prefix gives IncompleteInput (EmptyInput for the empty input) with the "
   "whole prefix consumed, for every filter, and a prefix that contains the first object of a sequence returns that object; reserved_code_at / non_string_key_at (and the any-width forms): 0xC1 "
@@ -165,7 +165,7 @@ P("C09", module="AJ.Props.C09All", extra=[("AJ.Props.DocGen", ["C09"]), ("AJ.Pro
                        S.MpDeSuite(cfg={"USE_LONG_LONG": 0}, n=800 if tier == "quick" else 40000),
                        # slot-level model with the string limit of the build: keys and strings at the longest storable length, 1- and 2-byte lengths
                        S.MpDocSuite(cfg=DEF, n=600 if tier == "quick" else 60000), S.MpDocSuite(cfg=G["len1"], n=400 if tier == "quick" else 40000)],
-  partial=["value of non-minimal encodings as a theorem"])
+  partial=["theorems are about the models (value-level and slot-level), tied by the correspondence suites and the first-byte / read-back tables"])
 
 P("C10", module="AJ.Props.C10All", extra=[("AJ.Props.C10Gen2", ["C10"]), ("AJ.Props.C10", ["C10"]), ("AJ.Props.C10Class", ["C10"]), ("AJ.Props.C01Doc", ["C10"]), ("AJ.Props.C10Gen", ["C10"])], level_text="C10.json_first_byte_is_source_*: on each of the 256 first bytes followed by three fixed tails, in the default build and with comments/NaN/Infinity enabled, the model's code, consumption and serialized document are those obtained on every run by calling the compiled deserializeJson/serializeJson (translator tie, kernel evaluation of 1536 runs). C10.unquoted_class_is_source / number_class_is_source_* / space_class_is_source / quote_class_is_source: the character classes of the model are exactly the tables obtained on every run by calling the private predicates of the compiled JsonDeserializer for all 256 bytes in three configurations (translator tie). Theorems C10.accepts_iff / ok_iff_dialect: for every configuration (comments, NaN, Infinity, unicode decoding on or off), nesting limit and byte string, the deserializer model "
   "returns Ok with value v exactly when the text is `white space/comments, one value of the documented dialect denoting v, then anything` (declarative grammar lean/AJ/Spec/Dialect.lean: single and double "
